@@ -170,3 +170,67 @@ Proof.
   split; [vm_compute; reflexivity|]. split; [exact Hok2|]. split; [exact Hsym2|].
   split; [vm_compute; reflexivity|]. split; [vm_compute; reflexivity|]. split; [exact Hok3|exact Hsym3].
 Qed.
+
+(* ... and of the other three: on the pair A = [[1;2]; [2]], B = [[1]; [1;2]] (RefList both sides),
+   - forgetting B and rebuilding it from A gives B back,
+   - adding row 3 of TA with A[3] = [1] puts 3 into B[1],
+   - removing row 1 of TA leaves A[2] = [2], B = [None; [2]]. *)
+Example C11_nonvacuous_more :
+  let s0 := empty_pair KRefList KRefList [1; 2] [1; 2] in
+  exists s1 s2 s3 a' b',
+    update_a (fun _ => None) gra s0 [1; 2] [CList [1; 2]%Z; CList [2%Z]] = Ok s1 /\ pair_ok s1 /\ sym s1 /\
+    map (raw_get (p_b s1)) [1; 2] = [CList [1%Z]; CList [1; 2]%Z] /\
+    recalc_from_a (fun _ => None)
+      {| p_a := p_a s1; p_b := col_new KRefList; p_rows_a := [1; 2]; p_rows_b := [1; 2] |} = Ok s2 /\
+    map (raw_get (p_b s2)) [1; 2] = [CList [1%Z]; CList [1; 2]%Z] /\ sym s2 /\
+    add_a (fun _ => None) gra false s1 [3] [CList [1%Z]] = Ok s3 /\
+    map (raw_get (p_b s3)) [1; 2] = [CList [1; 3]%Z; CList [1; 2]%Z] /\ p_rows_a s3 = [1; 2; 3] /\ sym s3 /\
+    remove_rows (fun _ => None) (pair_world false s1) [1] =
+      Ok {| wd_rows := [2];
+            wd_cols := [ {| w_col := a'; w_rows := [2]; w_own := true; w_back := false |};
+                         {| w_col := b'; w_rows := [1; 2]; w_own := false; w_back := true |} ] |} /\
+    map (raw_get a') [1; 2] = [CNone; CList [2%Z]] /\ map (raw_get b') [1; 2] = [CNone; CList [2%Z]] /\
+    sym {| p_a := a'; p_b := b'; p_rows_a := [2]; p_rows_b := [1; 2] |}.
+Proof.
+  cbv zeta. destruct (empty_pair_ok KRefList KRefList [1; 2] [1; 2] rows_ok_12 rows_ok_12) as [Hok Hsym].
+  assert (Hnd2 : NoDup [1; 2]) by (repeat constructor; cbn; intuition lia).
+  assert (E1 : exists s1, update_a (fun _ => None) gra (empty_pair KRefList KRefList [1; 2] [1; 2]) [1; 2]
+                            [CList [1; 2]%Z; CList [2%Z]] = Ok s1) by (eexists; vm_compute; reflexivity).
+  destruct E1 as [s1 E1].
+  destruct (twoway_symmetric_step _ _ [1; 2] [CList [1; 2]%Z; CList [2%Z]] _ Hok Hsym Hnd2 eq_refl E1) as [Hok1 Hsym1].
+  pose proof Hok1 as [Hia [Hib [Hra [Hrb [Hca Hcb]]]]].
+  assert (Rows : p_rows_a s1 = [1; 2] /\ p_rows_b s1 = [1; 2]).
+  { vm_compute in E1. inversion E1; subst s1. split; reflexivity. }
+  destruct Rows as [Ra Rb].
+  (* rebuild *)
+  assert (E2 : exists s2, recalc_from_a (fun _ => None)
+            {| p_a := p_a s1; p_b := col_new KRefList; p_rows_a := [1; 2]; p_rows_b := [1; 2] |} = Ok s2).
+  { vm_compute in E1. inversion E1; subst s1. eexists. vm_compute. reflexivity. }
+  destruct E2 as [s2 E2].
+  assert (Hsym2 : sym s2).
+  { rewrite Ra, Rb in *. refine (proj1 (proj2 (rebuild_after_type_switch _ _ _ _ _ _ _ _ _ _ E2))); cbn [p_a p_b p_rows_a p_rows_b];
+      try assumption; try apply col_new_ok.
+    intros y _. unfold refs, raw_get. cbn [col_new rc_data rc_kind]. destruct y as [|[|y]]; reflexivity. }
+  (* add *)
+  assert (E3 : exists s3, add_a (fun _ => None) gra false s1 [3] [CList [1%Z]] = Ok s3).
+  { vm_compute in E1. inversion E1; subst s1. eexists. vm_compute. reflexivity. }
+  destruct E3 as [s3 E3].
+  assert (Hsym3 : sym s3).
+  { refine (proj2 (twoway_symmetric_add _ false _ [3] [CList [1%Z]] _ Hok1 Hsym1 _ eq_refl _ _ E3)).
+    - repeat constructor; cbn; intuition.
+    - intros r [<-|[]]. split; cbn; lia.
+    - discriminate. }
+  (* removal *)
+  destruct (removal_keeps_sym (fun _ => None) false s1 [1] Hok1 Hsym1 ltac:(discriminate)) as [a' [b' [E4 [_ Hsym4]]]].
+  exists s1, s2, s3, a', b'.
+  split; [exact E1|]. split; [exact Hok1|]. split; [exact Hsym1|].
+  vm_compute in E1. inversion E1; subst s1. vm_compute in E2. inversion E2; subst s2.
+  vm_compute in E3. inversion E3; subst s3.
+  split; [vm_compute; reflexivity|]. split; [vm_compute; reflexivity|]. split; [vm_compute; reflexivity|].
+  split; [exact Hsym2|]. split; [vm_compute; reflexivity|]. split; [vm_compute; reflexivity|].
+  split; [reflexivity|]. split; [exact Hsym3|].
+  cbn [p_rows_a p_rows_b filter memN existsb Nat.eqb negb] in E4, Hsym4.
+  split; [exact E4|].
+  assert (E5 := E4). vm_compute in E5. inversion E5; subst a' b'.
+  split; [vm_compute; reflexivity|]. split; [vm_compute; reflexivity|]. exact Hsym4.
+Qed.
